@@ -1,4 +1,5 @@
 import Ucan.Model.Did
+import Ucan.Lemmas.Base58
 /-!
 # C16 — did:key text, DID value and public key convert back and forth without loss
 -/
@@ -143,5 +144,46 @@ theorem C16_parsed_code (mbDecode : Bytes → Option (Byte × Bytes)) (s : Bytes
   split at h
   · rename_i hc; cases h; simpa using hc
   · cases h
+
+/-! ### with the base-58 algorithm itself (no multibase hypothesis left)
+
+`mbDecode58` is `multibase.Decode` as far as `did.Parse` can tell: only the `z` (base58btc) prefix yields an
+acceptable result. `Base58.decode_encode` discharges the hypothesis `hmb` of the theorems above, and
+`Base58.encode_injective` the hypothesis of `C16_print_injective`. The base-58 functions are the ones the
+driver executes in the `did` correspondence stream. -/
+
+def mbDecode58 (s : Bytes) : Option (Byte × Bytes) :=
+  match s with
+  | [] => none
+  | p :: r => if p = zChar then (Base58.decode r).map (fun b => (zChar, b)) else none
+
+theorem mbDecode58_encode (b : Bytes) : mbDecode58 (zChar :: Base58.encode b) = some (zChar, b) := by
+  simp [mbDecode58, Base58.decode_encode]
+
+/-- print then parse is the identity on every DID the package can build, for base58btc as it is -/
+theorem C16_parse_print_base58 (marshal : Nat → K → Bytes) (c : Nat) (k : K) (hc : c ∈ Facts.fromPubKeyCodes) :
+    parse mbDecode58 (print Base58.encode (fromPubKey marshal c k)) = .ok (fromPubKey marshal c k) :=
+  C16_parse_print mbDecode58 Base58.encode mbDecode58_encode marshal c k hc
+
+/-- key → DID → text → DID → key, for base58btc as it is; only the key (un)marshalling contract remains -/
+theorem C16_roundtrip_base58 (marshal : Nat → K → Bytes) (unmarshal : Nat → Bytes → Option K)
+    (hum : ∀ c k, unmarshal c (marshal c k) = some k) (c : Nat) (k : K) (hc : c ∈ Facts.fromPubKeyCodes) :
+    parse mbDecode58 (print Base58.encode (fromPubKey marshal c k)) = .ok (fromPubKey marshal c k) ∧
+      pubKey marshal unmarshal (fromPubKey marshal c k) = .ok k :=
+  C16_roundtrip mbDecode58 Base58.encode mbDecode58_encode marshal unmarshal hum c k hc
+
+/-- two DIDs that print to the same text have the same bytes -/
+theorem C16_print_injective_base58 (d1 d2 : DID) (h : print Base58.encode d1 = print Base58.encode d2) :
+    d1.bytes = d2.bytes :=
+  C16_print_injective Base58.encode Base58.encode_injective d1 d2 h
+
+/-- text that is not base-58 after the `z` is refused -/
+theorem C16_reject_not_base58 (s r : Bytes) (hp : keyPrefix.isPrefixOf s = true)
+    (hs : s.drop keyPrefix.length = zChar :: r) (hr : Base58.decode r = none) :
+    ∃ e, parse mbDecode58 s = .error e := by
+  have : mbDecode58 (s.drop keyPrefix.length) = none := by rw [hs]; simp [mbDecode58, hr]
+  unfold parse
+  simp only [hp, not_true_eq_false, ↓reduceIte, this]
+  exact ⟨_, rfl⟩
 
 end Ucan.Did
